@@ -11,9 +11,9 @@ import (
 // class-hierarchy analysis over the named types of the loaded program, anonymous functions attached
 // to their parent (a closure is assumed callable whenever its parent runs).
 type CallGraph struct {
-	p       *Prog
-	callers map[*ssa.Function][]CallSite
-	impls   map[*types.Func][]*ssa.Function // interface method -> concrete module methods
+	p        *Prog
+	callers  map[*ssa.Function][]CallSite
+	impls    map[*types.Func][]*ssa.Function // interface method -> concrete module methods
 	allNamed []*types.Named
 }
 
